@@ -171,7 +171,8 @@ claim("C03", "translation_validation",
       "Every design (generated 'translatable' DesignSpecs covering the constructs the translation documentation lists; "
       "a corpus of real RTL from pymtl3.stdlib and the examples incl. ProcRTL; the repository's ~250 translator "
       "test-case DUTs; generated interface-centred designs with N-dimensional interface / component lists and permuted "
-      "interface-level connects; multi-instance parametrised designs; tiny probes of known findings) is translated by the real VerilogTranslationPass with its file "
+      "interface-level connects; multi-instance parametrised designs; struct-port layout designs (random struct trees, "
+      "struct -> Bits, pass-through, leaf reads); tiny probes of known findings) is translated by the real VerilogTranslationPass with its file "
       "I/O bound to an in-memory directory; the emitted text must parse and elaborate, have exactly one driver per "
       "variable bit, no blocking assignment in always_ff, and a port list equal to the one derived from the PyMTL port "
       "types; it is then executed by svsim next to the PyMTL simulation of a second instance for 8..60 cycles of seeded "
@@ -203,7 +204,8 @@ claim("C13", "exploration",
       "must be byte-identical; every module must be defined once and every instantiated module defined, identifiers "
       "legal and unique (svsim parser); and for every component instance a fresh copy translated alone must yield, "
       "under its module name, the body the combined translation emitted under that name (block labels and "
-      "lambda-derived identifiers normalised), otherwise two instances alias different hardware.",
+      "lambda-derived identifiers normalised), otherwise two instances alias different hardware; and inside the parent's "
+      "module every instance must instantiate the module its (class, arguments) gets when translated alone.",
       "Interpreter-level nondeterminism (hash seed, ASLR) is the explored fault; all interpreters share one working "
       "directory because emitted comments contain source paths. Known findings F7 F22 F23.",
       "seeded multi-process search over hash-seed/ASLR nondeterminism + history check over the emitted artefacts",
